@@ -49,7 +49,7 @@ const queueCapacity = 100
 
 // unresponsive peer: the write loop waits 1 s for the answer to its close frame; everything must be gone this long
 // after the close frame was seen
-var muteBound = 2500 * time.Millisecond
+var muteBound = 5 * time.Second
 
 // slow reader: longer than a sender would reasonably wait, shorter than the write loop's 5 s write deadline
 const slowPause = 2500 * time.Millisecond
@@ -1097,6 +1097,36 @@ func runConversation(tag string, sc Script) (res Result) {
 	var muteWhere []string
 	var muteObs sexp.Node
 	muteAccount := func() {
+		// meanwhile the sources stay busy: every live source delivers an event every 150 ms (the goroutines keep
+		// handing frames to sendMessage while the write loop waits for the answer to its close frame)
+		stopBusy := make(chan struct{})
+		busyDone := make(chan struct{})
+		go func() {
+			defer close(busyDone)
+			for {
+				w.mu.Lock()
+				srcs := append([]*source(nil), w.sources...)
+				w.mu.Unlock()
+				for _, src := range srcs {
+					if src.ended {
+						continue
+					}
+					select {
+					case src.ch <- src.n*1000 + 999:
+					case <-src.stopped:
+					case <-stopBusy:
+						return
+					case <-time.After(20 * time.Millisecond):
+					}
+				}
+				select {
+				case <-stopBusy:
+					return
+				case <-time.After(150 * time.Millisecond):
+				}
+			}
+		}()
+		defer func() { close(stopBusy); <-busyDone }()
 		deadline := time.Now().Add(muteBound)
 		for {
 			muteLeft, muteWhere = servingInfo(tag, time.Now())
